@@ -55,7 +55,7 @@ def sh(cmd, cwd=None, timeout=900):
 def main():
     ms = mutants()
     random.Random(7).shuffle(ms)
-    ms = ms[:int(os.environ.get("MM_SAMPLE", "150"))]
+    ms = ms[int(os.environ.get("MM_SKIP", "0")):int(os.environ.get("MM_SAMPLE", "150"))]
     only = os.environ.get("MM_ONLY")
     if only:
         keys = {l.strip() for l in open(only) if l.strip()}
